@@ -583,6 +583,8 @@ func famSeqs(n int, rng *rand.Rand, nrand int) []hSeq {
 		{"one-transition", mk(func(i int) bool { return i >= n/2 })},
 		{"lone-final-one", mk(func(i int) bool { return i == n-1 })},
 		{"lone-first-one", mk(func(i int) bool { return i == 0 })},
+		{"lone-final-zero", mk(func(i int) bool { return i != n-1 })},
+		{"lone-first-zero", mk(func(i int) bool { return i != 0 })},
 		{"period3", mk(func(i int) bool { return i%3 == 0 })},
 		{"period7", mk(func(i int) bool { return i%7 < 3 })},
 		{"biased-0.9", mk(func(i int) bool { return rng.Float64() < 0.9 })},
